@@ -7,10 +7,11 @@ from vlib import core
 META = {
     "level": "fault_enumeration",
     "level_text": "AtomicWrite.tla models the destination directory at system-call level (objects, directory entries, descriptors) and "
-                  "the programs of ArchiveBuilder::build and MutableArchive::compact as coded; TLC checks exhaustively that under process death "
+                  "the programs of ArchiveBuilder::build, MutableArchive::compact, rebuild_archive and OpenOptions::create / SFileCreateArchive as coded; TLC checks exhaustively that under process death "
                   "at every point and every choice of <= 3 failing system calls the destination is the previous file or a complete new archive, "
                   "and refutes the two mutant designs (direct write, copy+remove) and the code's own deviation (compact skips unreadable files). "
-                  "Binding: the real worker process is run under strace for V1..V4 x {dest absent, present, edited in place} x {build, compact}; "
+                  "Binding: the real worker process is run under strace for V1..V4 x dest pre-states {absent, archive, edited in place, 0-byte placeholder, garbage, "
+                  "read-only, directory} x operations {build, compact (clean / dirty session), rebuild_archive, OpenOptions::create, SFileCreateArchive}; "
                   "SIGKILL at the entry of every system call of the operation, EIO at every system call, ENOSPC (one-shot and persistent) at every "
                   "space-consuming call, RLIMIT_FSIZE limits, and (EIO, then kill/EIO on the error path) pairs are injected; every strace log is "
                   "translated into system-call events and replayed by TLC on the FS layer of the specification together with what the destination "
@@ -28,6 +29,9 @@ NEGATIVE = [
     # cfg suffix, invariant TLC must refute, meaning
     ("_direct", "DestPrevOrNew", "mutant design: File::create(dest) and write in place"),
     ("_placeholder", "DestPrevOrNew", "mutant design: an empty file at dest is treated as a placeholder and filled in place"),
+    ("_rmonerr", "DestPrevOrNew", "mutant design: rebuild removes the target path when the build fails"),
+    ("_probe", "DestPrevOrNew", "mutant design: create() probes writability with File::create(dest) before building"),
+    ("_rebuildskip", "DestPrevOrNew", "deviation (the code before 9d57560): rebuild skips a source file whose read fails and still replaces the target"),
     ("_copy", "DestPrevOrNew", "mutant design: persist replaced by copy + remove"),
     ("_ascoded", "DestPrevOrNew", "deviation: compact() skips a source file whose read fails (I/O errors until 131a1c3; non-I/O errors still)"),
     ("_dirtyflush", "DestPrevOrNew", "code deviation: compact() of a session with pending changes first flushes them in place into dest"),
@@ -40,7 +44,7 @@ def sig(b):
     why = str(b.get("why", "")).strip('"')
     rec = b.get("rec") or {}
     fsys = r.get("fsys", "")
-    fam = "read" if fsys in ("read", "pread64", "readv", "lseek") else fsys
+    fam = "read" if fsys in ("read", "pread64", "readv", "lseek", "statx", "fstat", "newfstatat") else fsys
     if rec.get("ev") in ("Write", "Open", "Trunc"):
         # P3 is about the system-call pattern of the operation, whatever fault (if any) the run carried
         return {"op": r.get("op"), "fkind": "-", "fsys_family": "-", "ev": rec.get("ev"), "why": why, "fault_phase": "-", "exit": "-"}
@@ -62,7 +66,7 @@ def annotate(bad, trace):
             if e["ev"] == "Write" and e.get("res") == "ok" and e.get("n", 0) > 0:
                 wrote = True
             if phase == "none" and (e["ev"] == "Fail" or e.get("res") == "err"):
-                if e["ev"] == "Fail" and e["sys"] in ("read", "pread64", "readv", "lseek") and not wrote:
+                if e["ev"] == "Fail" and e["sys"] in ("read", "pread64", "readv", "lseek", "statx", "fstat", "newfstatat") and not wrote:
                     phase = "source_read"
                 else:
                     phase = "write_phase" if wrote else "setup"
@@ -74,7 +78,7 @@ def annotate(bad, trace):
 
 
 def run(ctx, cases_override=None):
-    ctx.mc("MC_AtomicWrite", timeout=600, allow_uncovered=("B_CopyOpen", "B_Copy", "B_CopyRm", "C_Flush"))
+    ctx.mc("MC_AtomicWrite", timeout=600, allow_uncovered=("B_CopyOpen", "B_Copy", "B_CopyRm", "C_Flush", "X_Probe", "X_ProbeClose"))
     refuted = []
     for suffix, inv, meaning in NEGATIVE:
         rc, text = ctx.tlc("MC_AtomicWrite", "MC_AtomicWrite" + suffix, workers=2, timeout=300)
